@@ -148,30 +148,32 @@ class Group(SharedRegistryObject):
     def add_groups(self, *group_names: str) -> None:
         """Add groups to group."""
         d = self._REGISTRY._groups
-        for group_name in group_names:
-            grp = d[group_name]
+        try:
+            for group_name in group_names:
+                grp = d[group_name]
 
-            if group_name == self.name or grp.is_used_group(self.name):
-                raise ValueError(
-                    "Cyclic relationship found between %s and %s"
-                    % (self.name, group_name)
-                )
+                if group_name == self.name or grp.is_used_group(self.name):
+                    raise ValueError(
+                        "Cyclic relationship found between %s and %s"
+                        % (self.name, group_name)
+                    )
 
-            self._used_groups.add(group_name)
-            grp._used_by.add(self.name)
-
-        self.invalidate_members()
+                self._used_groups.add(group_name)
+                grp._used_by.add(self.name)
+        finally:
+            self.invalidate_members()
 
     def remove_groups(self, *group_names: str) -> None:
         """Remove groups from group."""
         d = self._REGISTRY._groups
-        for group_name in group_names:
-            grp = d[group_name]
+        try:
+            for group_name in group_names:
+                grp = d[group_name]
 
-            self._used_groups.remove(group_name)
-            grp._used_by.remove(self.name)
-
-        self.invalidate_members()
+                self._used_groups.remove(group_name)
+                grp._used_by.remove(self.name)
+        finally:
+            self.invalidate_members()
 
     @classmethod
     def from_lines(
